@@ -11,6 +11,6 @@ deriving DecidableEq, Repr, Inhabited
 
 /-- `get_assignment_class(smarts_filename, nb_filename)`: new cache state; the object returned is `cached`. -/
 def ffCacheStep (s : FFCache) (smarts nb : FName) : FFCache :=
-  if (s.cached.isNone || (smarts != s.gNb) || (nb != s.gSmarts)) then
-    { cached := some (s.gSmarts, smarts), gNb := smarts, gSmarts := s.gSmarts }
+  if (s.cached.isNone || (smarts != s.gSmarts) || (nb != s.gNb)) then
+    { cached := some (smarts, nb), gNb := nb, gSmarts := smarts }
   else s
